@@ -51,10 +51,12 @@ Print Assumptions C13_start_fresh.
    property text) demand: a probe is answered with the probe-reject iff the probing MAC holds an offer
    different from the probed address and the probed address is in the home LAN (and is not link-local:
    the handler's documented convention); any other packet is answered iff it is a who-has-router
-   request from a hunted MAC, and then with the spoof reply.  The state never changes. *)
+   request from a hunted MAC, and then with the spoof reply; a closed handler answers nothing.
+   The state never changes. *)
 Theorem C13_probe_reject_iff : forall c s p,
   step c s (RxArp p) =
-  (s, if sp_is_probe p
+  (s, if closed s then []
+      else if sp_is_probe p
       then (if sp_reject_cond c (offer_of (psmac p) (offers s)) p then [probe_reject c p] else [])
       else (if sp_asks_router c p && hunted s (psmac p) then [spoof_reply c p] else [])).
 Proof. exact rx_spec. Qed.
@@ -111,34 +113,22 @@ Proof. intros c s e i a H. split; [apply step_dead_stays; exact H | eapply wake_
 Print Assumptions C13_dead_loop_silent.
 
 (* ---- Close stops all loops ----
-   In every run, every wake-up of any loop after a Close emits nothing and that loop has returned. *)
-Theorem C13_close_stops_loops : forall c pre post s i out,
-  In (s, Wake i, out) (trace c (final c init_state (pre ++ [Close])) post) ->
-  out = [] /\
-  forall lp, nth_error (loops (fst (step c s (Wake i)))) i = Some lp -> alive lp = false.
-Proof. exact close_stops_loops. Qed.
-Print Assumptions C13_close_stops_loops.
-
-(* Full strength ("Close stops all spoofing"): no forged frame after Close.  False of the code: the receive
-   path has no test of h.closed (K3); everything else is silent. *)
-Theorem C13_close_stops_refuted :
-  exists c pre post s e out f,
-    cfg_ok c /\ In (s, e, out) (trace c (final c init_state (pre ++ [Close])) post) /\
-    In f out /\ forged c f = true.
-Proof. exact close_stops_refuted. Qed.
-Print Assumptions C13_close_stops_refuted.
-
-Theorem C13_close_stops_partial : forall c pre post s e out f,
+   Full strength: in every run, after a Close NO event emits any frame (loops, receive path, API calls),
+   and every wake-up of a loop is its last (the loop has returned).  Full since the repair of K3 (/repo:
+   ProcessPacket tests h.closed); before it the receive path still sent forged replies after Close
+   (refutation on the unrepaired model: verif commit ae1e0b3). *)
+Theorem C13_close_stops : forall c pre post s e out,
   In (s, e, out) (trace c (final c init_state (pre ++ [Close])) post) ->
-  In f out -> forged c f = true ->
-  known_C13_reply_after_close c s e = true.
-Proof. exact close_stops_partial. Qed.
-Print Assumptions C13_close_stops_partial.
+  out = [] /\
+  forall i lp, e = Wake i -> nth_error (loops (fst (step c s e))) i = Some lp -> alive lp = false.
+Proof. exact close_stops. Qed.
+Print Assumptions C13_close_stops.
 
 Example C13_close_stops_nonvacuous :
   let c := wit_cfg in
-  outputs c init_state [StartHunt (mkAddr wit_m1 3232235522); Wake 0; Close; Wake 0; Wake 0] =
-    [[]; [announce c wit_m1]; []; []; []] /\
+  outputs c init_state [StartHunt (mkAddr wit_m1 3232235522); Wake 0; Close; Wake 0; Wake 0;
+                        RxArp (mkPkt 1 wit_m1 wit_m1 3232235522 0 3232235531)] =
+    [[]; [announce c wit_m1]; []; []; []; []] /\
   loop_is (final c init_state [StartHunt (mkAddr wit_m1 3232235522); Wake 0; Close; Wake 0]) 0
           (mkAddr wit_m1 3232235522) false.
 Proof. exact close_stops_nonvacuous. Qed.
